@@ -107,7 +107,9 @@ reg(
     "cases = byte strings fed to strip_str/StripStr/strip_bytes/StripBytes/StripStream/AutoStream::never: bounded-exhaustive "
     "enumeration over CHARS27, BYTES40 and BYTES20 (distinct by construction, duplicates between the enumerations not counted) plus "
     "seeded grammar streams (distinct by 64-bit hash); non-trivial = contains at least one byte outside printable ASCII "
-    "(control, ESC, DEL or >= 0x80)",
+    "(control, ESC, DEL or >= 0x80); plus scripts of literal-only write!, write_all and write!(\"{}\") calls over 30 sequence / text "
+    "fragments and three cut-short characters on StripStream and AutoStream::never (counter literal_fragment_scripts; counted as "
+    "evaluations, not as distinct cases)",
     [A_REFVT, A_UTF8_STRIP],
     simple("c01", require_full=("printable_or_ws_byte_arrival_by_state",)),
 )
@@ -245,7 +247,8 @@ reg(
     "cases = strings passed to anstyle_ls::parse and compared with an independent left-to-right interpreter over its own table of the "
     "recognised codes; exhaustive lists of 1-2 units over 0..=110 + 18 extended-colour forms and 3 codes over a 40-code subset (quick) / "
     "0..=110 (thorough) (distinct by construction), seeded well-formed lists up to 40 codes with leading zeros and malformed lists "
-    "(distinct by hash); non-trivial = not empty",
+    "(distinct by hash); non-trivial = not empty; plus near-duplicate strings (NUL / zero / blank / sign padding, permuted and "
+    "truncated spellings) parsed after each other on one thread in several orders (counter inputs_after_history)",
     ["signed fields (+5) and truncated 38/48/58 forms are outside the statement: checked for 'no panic' only - DESIGN 8.6"],
     simple("c12"),
 )
